@@ -22,7 +22,7 @@ impl<T> RwLock<T> {
     { unimplemented!() }
 }
 
-/// std::collections::HashMap<K, V> — only `get` (std meaning: lookup)
+/// std::collections::HashMap<K, V> — `get` / `contains_key` (std meaning: lookup)
 #[verifier::external_body]
 #[verifier::reject_recursive_types(K)]
 #[verifier::reject_recursive_types(V)]
@@ -37,6 +37,10 @@ impl<K, V> HashMap<K, V> {
         ensures
             r.is_some() <==> self@.contains_key(*k),
             r.is_some() ==> *r.unwrap() == self@[*k],
+    { unimplemented!() }
+    #[verifier::external_body]
+    pub fn contains_key(&self, k: &K) -> (r: bool)
+        ensures r == self@.contains_key(*k),
     { unimplemented!() }
 }
 
@@ -109,8 +113,19 @@ impl Caller {
 /// http::StatusCode
 #[derive(Debug, PartialEq, Eq)]
 pub struct StatusCode(pub u16);
+/// http-1.x src/status.rs: the associated constants (canonical codes)
 impl StatusCode {
+    pub const OK: StatusCode = StatusCode(200);
+    pub const CREATED: StatusCode = StatusCode(201);
+    pub const ACCEPTED: StatusCode = StatusCode(202);
+    pub const NO_CONTENT: StatusCode = StatusCode(204);
     pub const NOT_MODIFIED: StatusCode = StatusCode(304);
+    pub const BAD_REQUEST: StatusCode = StatusCode(400);
+    pub const UNAUTHORIZED: StatusCode = StatusCode(401);
+    pub const FORBIDDEN: StatusCode = StatusCode(403);
+    pub const NOT_FOUND: StatusCode = StatusCode(404);
+    pub const CONFLICT: StatusCode = StatusCode(409);
+    pub const INTERNAL_SERVER_ERROR: StatusCode = StatusCode(500);
 }
 
 #[derive(Debug)]
@@ -120,7 +135,14 @@ pub struct AxumError { pub _p: () }
 /// and the `#[from]` conversions its `?` sites use.
 pub enum ServerError {
     Status(StatusCode),
+    Unauthorized,
+    BadRequest,
+    Forbidden,
+    Conflict,
+    NotFile(PathBuf),
+    FileExists(PathBuf),
     NoAccount(AccountId),
+    AccountExists(AccountId),
     FileChecksumMismatch(String, String),
     WebServer(AxumError),
     Io(Error),
